@@ -358,13 +358,21 @@ iwrc jbl_from_buf_keep(struct jbl **jblp, void *buf, size_t bufsz, bool keep_on_
 }
 
 iwrc jbl_clone(struct jbl *src, struct jbl **targetp) {
+  *targetp = 0;
+  if (!BINN_IS_CONTAINER_TYPE(src->bn.type)) {
+    // a scalar (e.g. a result of jbl_at): binn_copy() would read its BYTES - string contents, the value union - as a
+    // container header and copy `size` bytes from there
+    return JBL_ERROR_CREATION;
+  }
   *targetp = calloc(1, sizeof(**targetp));
   struct jbl *t = *targetp;
   if (!t) {
     return iwrc_set_errno(IW_ERROR_ALLOC, errno);
   }
   binn *bn = binn_copy(&src->bn);
-  if (!bn) {
+  if (!bn) {      // nothing for the caller to destroy
+    free(t);
+    *targetp = 0;
     return JBL_ERROR_CREATION;
   }
   t->node = 0;
